@@ -492,7 +492,9 @@ func systematicSessions(r *c.Rng, side string, f func(Case)) {
 					// the names of the three maps: abstract, or the special ones (names.go)
 					nm := sessionNamings[(cnt+r.Intn(2))%len(sessionNamings)]
 					cnt++
-					maps := []map[string]string{{nm[0]: "1", nm[1]: "1"}, {nm[1]: "2", nm[2]: "2"}, {nm[2]: "3", nm[3]: "3"}}
+					// values: plain, or text special to a formatter / the dump (special.go)
+					vs := fmtValueSets[(cnt/2+r.Intn(2))%len(fmtValueSets)]
+					maps := []map[string]string{{nm[0]: vs[0], nm[1]: vs[0]}, {nm[1]: vs[1], nm[2]: vs[1]}, {nm[2]: vs[2], nm[3]: vs[2]}}
 					k := Case{Side: "sess_" + side, Reuse: reuse, Via: via}
 					for i, kind := range kinds {
 						a := Act{Kind: kind, Headers: copyMap(maps[i])}
